@@ -36,6 +36,7 @@ func init() {
 			{ID: "C16.R1", Title: "integer accumulation cannot overflow silently (shared with C16)", Covers: "numeric range errors agree", Min: 2, Run: c16r1},
 			{ID: "C07.R1", Title: "raw stores match the destination's kind (shared with C07)", Covers: "null and scalars leave a well-formed destination", Min: 12, Run: c07r1},
 			{ID: "C06.R6", Title: "UnmarshalJSON dispatch follows the destination's type (shared with C06)", Covers: "Unmarshal and UnmarshalContext succeed or fail together with encoding/json on unmarshaler types", Min: 2, Run: c06r6},
+			{ID: "C15.R5", Title: "the bitmap key matchers fold case through largeToSmallTable, which maps exactly A-Z to a-z (all 256 entries evaluated) (shared with C15)", Covers: "object keys select the field encoding/json selects, case-insensitively", Min: 10, Run: c15r5},
 			{ID: "C15.R2", Title: "an escaped key matches only a field of the same decoded length (shared with C15)", Covers: "object keys select the field encoding/json selects", Min: 4, Run: c15r2},
 		},
 	})
